@@ -143,17 +143,34 @@ class Source:
         op = ms[0].end() - 1
         return (op + 1, match_close(self.masked, op))
 
-    def find_impl(self, rng, header_regex):
-        """Body range of the unique depth-0 impl whose header matches header_regex."""
+    def find_impls(self, rng, header_regex):
+        """Body ranges of all depth-0 impls whose header matches header_regex."""
         hits = []
         for mm in self._depth0_positions(rng, r"\bimpl\b"):
             op = self.masked.find("{", mm.start())
             header = " ".join(self.masked[mm.start():op].split())
             if re.fullmatch(header_regex, header):
-                hits.append((op + 1, match_close(self.masked, op), header))
+                hits.append((op + 1, match_close(self.masked, op)))
+        return hits
+
+    def find_impl(self, rng, header_regex):
+        """Body range of the unique depth-0 impl whose header matches header_regex."""
+        hits = self.find_impls(rng, header_regex)
         if len(hits) != 1:
             raise AnchorLost("%s: impl /%s/ found %d times" % (self.label, header_regex, len(hits)))
-        return hits[0][:2]
+        return hits[0]
+
+    def find_fn_in_impls(self, rng, header_regex, name):
+        """fn `name` in whichever matching impl block defines it (a type may have several impl blocks)."""
+        found = []
+        for r in self.find_impls(rng, header_regex):
+            try:
+                found.append(self.find_fn(r, name))
+            except AnchorLost:
+                pass
+        if len(found) != 1:
+            raise AnchorLost("%s: fn %s in impl /%s/ found %d times" % (self.label, name, header_regex, len(found)))
+        return found[0]
 
     def find_fn(self, rng, name):
         """(sig_start, body_open, body_close) of the unique depth-0 fn `name` in rng."""
